@@ -208,7 +208,7 @@ def _is_memo_ref(node, names):
     return isinstance(node, ast.Name) and node.id in names
 
 
-def analyse_function(fn, chain, memos, decorated_count):
+def analyse_function(fn, chain, memos, decorated_count, closure_memos=None):
     """-> (events, findings).  events: list of (memo name, kind, line);
     findings: list of (memo name, rule, line, text)."""
     findings = []
@@ -313,6 +313,9 @@ def analyse_function(fn, chain, memos, decorated_count):
             # a set / list of "seen" keys: membership skips the whole body
             vdeps = _closure(all_read, defs) & relevant
         missing = vdeps - kdeps
+        if closure_memos and memo in closure_memos:
+            enc = closure_memos[memo]
+            missing -= set(_params(enc)) | set(_local_defs(enc))
         # the function a decorator wraps: harmless while the decorator (and
         # with it the table) serves exactly one function
         if missing and chain and missing <= set(_params(chain[-1])) and \
@@ -331,10 +334,19 @@ def analyse_function(fn, chain, memos, decorated_count):
                                 ', '.join(sorted(missing)),
                                 '/'.join(sorted(missing)))))
         # R ----------------------------------------------------------------
+        bp = _branch_paths(fn)
+        store_bp = None
+        for n in nodes:
+            if getattr(n, 'lineno', 0) == line and id(n) in bp and \
+                    isinstance(n, (ast.Assign, ast.AugAssign, ast.Expr)):
+                store_bp = bp[id(n)]
         for n in nodes:
             ln = getattr(n, 'lineno', 0)
             if ln <= line:
                 continue
+            if store_bp is not None and id(n) in bp and \
+                    _exclusive(store_bp, bp[id(n)]):
+                continue        # the other arm of an if: never runs after it
             if isinstance(n, ast.Raise):
                 findings.append((memo, 'nothing-remembered-on-failure', line,
                                  '%s is written at line %d before the '
@@ -382,6 +394,44 @@ def analyse_function(fn, chain, memos, decorated_count):
                         % (memo, line, obj, getattr(n, 'lineno', 0))))
                     break
     return events, findings
+
+
+def _branch_paths(fn):
+    """id(statement) -> tuple of (id(if/try node), arm) it is nested in."""
+    out = {}
+
+    def rec(stmts, path):
+        for st in stmts:
+            out[id(st)] = path
+            for sub in ast.walk(st):
+                if sub is not st and isinstance(sub, ast.stmt) and \
+                        id(sub) not in out:
+                    pass
+            if isinstance(st, ast.If):
+                rec(st.body, path + ((id(st), 'body'),))
+                rec(st.orelse, path + ((id(st), 'orelse'),))
+            elif isinstance(st, (ast.For, ast.While)):
+                rec(st.body, path)
+                rec(st.orelse, path)
+            elif isinstance(st, ast.With):
+                rec(st.body, path)
+            elif isinstance(st, ast.Try):
+                rec(st.body, path + ((id(st), 'try'),))
+                for i, h in enumerate(st.handlers):
+                    rec(h.body, path + ((id(st), 'except%d' % i),))
+                rec(st.orelse, path + ((id(st), 'try'),))
+                rec(st.finalbody, path)
+    rec(fn.body, ())
+    return out
+
+
+def _exclusive(pa, pb):
+    da, db = dict(pa), dict(pb)
+    for k in da:
+        if k in db and da[k] != db[k] and not (
+                da[k] == 'try' and db[k].startswith('except')):
+            return True
+    return False
 
 
 def _decorated_param(dec_fn):
@@ -435,8 +485,27 @@ def scan_module(tree):
     out = []
     n_writers = 0
     for fn, chain in chains:
-        events, findings = analyse_function(fn, chain, memos,
-                                            decorated_count)
+        # containers created by an enclosing function (one per closure, e.g.
+        # per decoration) are memos of the closure: same rules, except that
+        # the key need not name what is fixed per closure anyway
+        closure_memos = {}
+        for enc in chain:
+            for x in _own_nodes(enc):
+                if isinstance(x, ast.Assign) and len(x.targets) == 1 and \
+                        isinstance(x.targets[0], ast.Name) and (
+                            (isinstance(x.value, (ast.Dict, ast.Set,
+                                                  ast.List)) and
+                             not getattr(x.value, 'keys', None) and
+                             not getattr(x.value, 'elts', None)) or (
+                                isinstance(x.value, ast.Call) and
+                                not x.value.args and
+                                isinstance(x.value.func, ast.Name) and
+                                x.value.func.id in CONTAINER_CALLS)):
+                    closure_memos[x.targets[0].id] = enc
+        all_memos = dict(memos)
+        all_memos.update({k: v.lineno for k, v in closure_memos.items()})
+        events, findings = analyse_function(fn, chain, all_memos,
+                                            decorated_count, closure_memos)
         if any(k == 'store' for _, k, _ in events):
             n_writers += 1
         sites = [fn]
@@ -534,14 +603,28 @@ def wrapper_findings(tree):
                                 '(line %d)' % n.lineno)
         # an early return must be the memo hit
         first_call = min([c.lineno for c in calls] or [10 ** 9])
+        # containers the decorator creates per decoration count as memos too
+        local_memos = set(memos)
+        for holder in (dec, inner):
+            for x in _own_nodes(holder):
+                if isinstance(x, ast.Assign) and len(x.targets) == 1 and \
+                        isinstance(x.targets[0], ast.Name) and (
+                            isinstance(x.value, (ast.Dict, ast.Set,
+                                                 ast.List)) or (
+                                isinstance(x.value, ast.Call) and
+                                isinstance(x.value.func, ast.Name) and
+                                x.value.func.id in CONTAINER_CALLS)):
+                    local_memos.add(x.targets[0].id)
         for n in ast.walk(w):
+            # the innermost `if` a return sits in
             if isinstance(n, ast.If) and n.lineno < first_call and any(
-                    isinstance(x, ast.Return) for x in ast.walk(n)):
+                    isinstance(x, ast.Return)
+                    for x in list(n.body) + list(n.orelse)):
                 t = n.test
                 ok = isinstance(t, ast.Compare) and len(t.ops) == 1 and \
                     isinstance(t.ops[0], (ast.In, ast.NotIn)) and \
                     isinstance(t.comparators[0], ast.Name) and \
-                    t.comparators[0].id in memos
+                    t.comparators[0].id in local_memos
                 if not ok:
                     problems.append('returns without calling the wrapped '
                                     'function when `%s` (line %d)'
